@@ -168,3 +168,114 @@ Proof.
     + unfold FVal.s2l. cbn [String.list_ascii_of_string map]. fold (FVal.s2l (NilZero.string_of_uint (uint_of_digits (c :: s)))).
       rewrite (string_of_uint_digits c s Hdig). reflexivity.
 Qed.
+
+(** * The other kernels' printers
+
+    Json.Z_dec (C20), Undefined.str_of_Z (C16), Markup.Z_to_str (C04),
+    Printer.show_Z (C12) and ObjAccess.z_to_str (C05) are five more
+    transcriptions of [str(int)]; all seven denote one function. *)
+From LQ Require Kernels.Json Kernels.Undefined Kernels.Markup Kernels.Printer Kernels.ObjAccess.
+
+Lemma pos_digits_fuel f1 : forall f2 n acc,
+  n < 2 ^ N.of_nat f1 -> n < 2 ^ N.of_nat f2 -> (0 < f1)%nat -> (0 < f2)%nat ->
+  pos_digits f1 n acc = pos_digits f2 n acc.
+Proof.
+  induction f1 as [|f1 IH]; intros f2 n acc H1 H2 P1 P2; [lia|].
+  destruct f2 as [|f2]; [lia|].
+  cbn [pos_digits].
+  destruct (n / 10 =? 0) eqn:E; [reflexivity|].
+  apply N.eqb_neq in E.
+  assert (Q1 : n / 10 < 2 ^ N.of_nat f1).
+  { rewrite Nat2N.inj_succ, N.pow_succ_r' in H1. apply N.div_lt_upper_bound; [discriminate|]. lia. }
+  assert (Q2 : n / 10 < 2 ^ N.of_nat f2).
+  { rewrite Nat2N.inj_succ, N.pow_succ_r' in H2. apply N.div_lt_upper_bound; [discriminate|]. lia. }
+  remember (n / 10) as q eqn:Eq. clear Eq.
+  apply IH; try assumption.
+  - destruct f1; [|lia]. change (2 ^ N.of_nat 0) with 1 in Q1. lia.
+  - destruct f2; [|lia]. change (2 ^ N.of_nat 0) with 1 in Q2. lia.
+Qed.
+
+Lemma small_iff n : (n <? 10) = (n / 10 =? 0).
+Proof.
+  destruct (N.ltb_spec n 10) as [H|H].
+  - symmetry. apply N.eqb_eq. apply N.div_small. exact H.
+  - symmetry. apply N.eqb_neq. intro K. apply N.div_small_iff in K; [lia|discriminate].
+Qed.
+
+Lemma undefined_dec_aux f : forall n acc, Undefined.dec_aux f n acc = pos_digits f n acc.
+Proof.
+  induction f as [|f IH]; intros n acc; [reflexivity|].
+  cbn [Undefined.dec_aux pos_digits]. rewrite small_iff. destruct (n / 10 =? 0); [reflexivity|apply IH].
+Qed.
+
+Lemma json_dec_digits f : forall n acc, Json.dec_digits f n acc = pos_digits f n acc.
+Proof.
+  induction f as [|f IH]; intros n acc; [reflexivity|].
+  cbn [Json.dec_digits pos_digits]. rewrite small_iff.
+  destruct (n / 10 =? 0) eqn:E; [|apply IH].
+  apply N.eqb_eq in E. apply N.div_small_iff in E; [|discriminate].
+  rewrite (N.mod_small n 10 E). reflexivity.
+Qed.
+
+Lemma pos_lt_pow_size p : Npos p < 2 ^ N.of_nat (Pos.size_nat p).
+Proof.
+  induction p as [p IH|p IH|]; cbn [Pos.size_nat]; rewrite ?Nat2N.inj_succ, ?N.pow_succ_r'; try lia; try reflexivity.
+Qed.
+
+Lemma lt_pow_log2 p : Npos p < 2 ^ N.of_nat (S (N.to_nat (N.log2 (Npos p)))).
+Proof. rewrite Nat2N.inj_succ, N2Nat.id. apply N.log2_spec. reflexivity. Qed.
+
+Lemma undefined_dec_of_N p : Undefined.dec_of_N (Npos p) = str_of_N (Npos p).
+Proof.
+  unfold Undefined.dec_of_N, str_of_N. rewrite undefined_dec_aux.
+  apply pos_digits_fuel; try lia; [|apply lt_pow_log2].
+  cbn [N.size_nat]. rewrite Nat2N.inj_succ, N.pow_succ_r'. pose proof (pos_lt_pow_size p). lia.
+Qed.
+
+Lemma json_N_dec p : Json.N_dec (Npos p) = str_of_N (Npos p).
+Proof.
+  unfold Json.N_dec, str_of_N. rewrite json_dec_digits.
+  apply pos_digits_fuel; try lia; [|apply lt_pow_log2].
+  rewrite Nat2N.inj_succ, N2Nat.id, N.pow_succ_r'. pose proof (N.size_gt (Npos p)). lia.
+Qed.
+
+Lemma markup_uint_digits s : forallb is_digit s = true -> Markup.uint_digits (uint_of_digits s) = s.
+Proof.
+  induction s as [|c s IH]; [reflexivity|].
+  cbn [forallb]. intro H. apply andb_true_iff in H. destruct H as [Hc Hs].
+  specialize (IH Hs). cbn [uint_of_digits].
+  destruct (digit_cases c Hc) as [E|[E|[E|[E|[E|[E|[E|[E|[E|E]]]]]]]]]; subst c; cbn; rewrite IH; reflexivity.
+Qed.
+
+Lemma printer_uint_digits s : forallb is_digit s = true -> Printer.uint_digits (uint_of_digits s) = s.
+Proof.
+  induction s as [|c s IH]; [reflexivity|].
+  cbn [forallb]. intro H. apply andb_true_iff in H. destruct H as [Hc Hs].
+  specialize (IH Hs). cbn [uint_of_digits].
+  destruct (digit_cases c Hc) as [E|[E|[E|[E|[E|[E|[E|[E|[E|E]]]]]]]]]; subst c; cbn; rewrite IH; reflexivity.
+Qed.
+
+Theorem integer_renderings_all_agree (z : Z) :
+  FVal.z_to_str z = str_of_Z z
+  /\ ObjAccess.z_to_str z = str_of_Z z
+  /\ Undefined.str_of_Z z = str_of_Z z
+  /\ Json.Z_dec z = str_of_Z z
+  /\ Markup.Z_to_str z = str_of_Z z
+  /\ Printer.show_Z z = str_of_Z z.
+Proof.
+  assert (Hdig : forall p, forallb is_digit (str_of_N (Npos p)) = true)
+    by (intro p; apply pos_digits_digits; reflexivity).
+  split; [symmetry; apply str_of_Z_models_agree|].
+  split; [change (ObjAccess.z_to_str z) with (FVal.z_to_str z); symmetry; apply str_of_Z_models_agree|].
+  destruct z as [|p|p]; repeat split; try reflexivity.
+  - unfold Undefined.str_of_Z. cbn [Z.ltb Z.compare Z.to_N]. apply undefined_dec_of_N.
+  - cbn [Json.Z_dec str_of_Z]. apply json_N_dec.
+  - cbn [Markup.Z_to_str str_of_Z]. unfold Markup.N_to_str. cbn [N.to_uint].
+    rewrite to_uint_str_of_N. apply markup_uint_digits. apply Hdig.
+  - cbn [Printer.show_Z str_of_Z]. rewrite to_uint_str_of_N. apply printer_uint_digits. apply Hdig.
+  - unfold Undefined.str_of_Z. cbn [Z.ltb Z.compare Z.opp Z.to_N str_of_Z]. f_equal. apply undefined_dec_of_N.
+  - cbn [Json.Z_dec str_of_Z]. f_equal. apply json_N_dec.
+  - cbn [Markup.Z_to_str str_of_Z]. f_equal. unfold Markup.N_to_str. cbn [N.to_uint].
+    rewrite to_uint_str_of_N. apply markup_uint_digits. apply Hdig.
+  - cbn [Printer.show_Z str_of_Z]. f_equal. rewrite to_uint_str_of_N. apply printer_uint_digits. apply Hdig.
+Qed.
